@@ -132,9 +132,10 @@ pub fn ser_job(job: &J) -> J {
     m.insert("res".into(), json!(res));
     m.insert("text".into(), json!(text));
     // Write-based entry point
+    // (through a sink that accepts a few bytes per call, as any conforming io::Write may)
     let wr = catch_unwind(AssertUnwindSafe(|| {
-        let mut buf: Vec<u8> = vec![];
-        w.xot.serialize_xml_write(params(), root, &mut buf).map(|_| String::from_utf8_lossy(&buf).to_string())
+        let mut sink = ShortWriter { buf: vec![], step: 0 };
+        w.xot.serialize_xml_write(params(), root, &mut sink).map(|_| String::from_utf8_lossy(&sink.buf).to_string())
     }));
     let (wres, wtext) = str_result(wr);
     m.insert("wres".into(), json!(wres));
@@ -184,4 +185,26 @@ pub fn ser_job(job: &J) -> J {
     let post = w.project(None);
     m.insert("post".into(), post);
     ev
+}
+
+
+/// An io::Write that takes 1 to 3 bytes per call: callers have to use write_all (or loop) to get everything out.
+pub struct ShortWriter {
+    pub buf: Vec<u8>,
+    pub step: usize,
+}
+
+impl std::io::Write for ShortWriter {
+    fn write(&mut self, data: &[u8]) -> std::io::Result<usize> {
+        if data.is_empty() {
+            return Ok(0);
+        }
+        self.step += 1;
+        let n = data.len().min(1 + self.step % 3);
+        self.buf.extend_from_slice(&data[..n]);
+        Ok(n)
+    }
+    fn flush(&mut self) -> std::io::Result<()> {
+        Ok(())
+    }
 }
